@@ -24,7 +24,7 @@ REAL = ['core.letter_id_generator', 'Parser, ConnectionManager, ConnectionImpl, 
 STUBBED = ['line source', 'output streams (recording)', 'XML parse results memoised per worker']
 ASSUMPTIONS = ['labels are scraped from the tool\'s output lines with string arguments removed',
                'expected selection is computed from ground truth by (connection, id, incarnation index)']
-SHRINK_FIELDS = ['intents']
+SHRINK_FIELDS = ['intents', 'sink_ops']
 DETERMINISM_RUNS = 16
 
 
@@ -32,6 +32,13 @@ def generate(seed, tier, index):
     rng = random.Random('%d/gen' % seed)
     if index == 0:
         return {'prop': ID, 'seed': seed, 'config': {'kind': 'bijection'}, 'intents': []}
+    if index % 8 == 7:
+        # connection names under open / duplicate open / close / re-open on the connection-id sink
+        from . import c04
+        sc = c04.generate_sink(seed, rng)
+        sc['prop'] = ID
+        sc['config']['kind'] = 'sink'
+        return sc
     r = rng.random()
     nconn = rng.randint(27, 30) if r < 0.08 else rng.choice([1, 2, 3, 4])
     total = rng.randint(20, 140 if tier == 'quick' else 300)
@@ -78,9 +85,41 @@ def bijection():
             'sample': {'kind': 'bijection', 'enumerated': n, 'sampled': 100000}}
 
 
+def execute_sink(sc):
+    from . import c04
+
+    def post(cm, ctl, rec, model_all, V):
+        names = [c.name() for c in cm.connections()]
+        if len(set(names)) != len(names):
+            V.add('C14/duplicate-name', 'sink', 'distinct connections share a name: %r' % names)
+            return
+        ctl.process_command('connection all')
+        for c in cm.connections():
+            start = len(rec.events)
+            ctl.process_command('list %s:' % c.name())
+            outs = [L.classify(s, p) for s, k, p in rec.events[start:] if k == 'out']
+            shown = [o for o in outs if o.kind == 'msg']
+            V.bump('queries_conn')
+            if len(shown) != len(c.messages()) or any(o.conn != c.name() for o in shown):
+                V.add('C14/conn-matcher', 'sink', '`list %s:` shows %d lines (connections %r), connection %s has %d messages'
+                      % (c.name(), len(shown), sorted(set(o.conn for o in shown)), c.name(), len(c.messages())))
+                return
+    r = c04.execute_sink(sc, post=post)
+    keep = []
+    for v in r['violations']:
+        if v['sig'].startswith('C14/'):
+            keep.append(v)
+        elif 'name' in v['trigger'] or v['sig'] in ('C04/open-notice', 'C04/close-notice'):
+            keep.append({'sig': 'C14/duplicate-name', 'trigger': v['sig'], 'detail': v['detail']})
+    r['violations'] = keep
+    return r
+
+
 def execute(sc):
     if sc['config'].get('kind') == 'bijection':
         return bijection()
+    if sc['config'].get('kind') == 'sink':
+        return execute_sink(sc)
     cfg = sc['config']
     st, res, tr, metas = S.run(sc)
     V = common.Viol()
